@@ -790,7 +790,11 @@ def runGlueLine (r : Report) (sec : Nat) (l : Line) : Report :=
         | some pm => if wraps && msI pm < specT then r.addCover "glue-cli-caller-earlier" else if wraps then r.addCover "glue-cli-caller-later" else r
         | none => r
       let r := if model ≠ impl then r.mismatch sec l.idx model impl else r
-      if dlViolates (obsOf l "dl") parent wraps (specT / 1000000) then
+      let r := if wraps && on && !users.isEmpty && c > 0 && (match users.getLast? with | some u => decide (u < msI c) | none => false)
+          && !callOpts.any (·.isSome) then r.addCover "glue-cli-WithTimeout-shorter-than-conf" else r
+      if !wraps && (obsOf l "dl").startsWith "window" then
+        r.violation sec l.idx s!"the call runs under a timeout although none is in force (effective timeout <= 0 — first WithCallTimeout, else last zrpc.WithTimeout, else RpcClientConf.Timeout — or the Timeout middleware off): the caller's context must reach the work untouched: op=[{joinSp l.op}] impl=[{impl}]"
+      else if dlViolates (obsOf l "dl") parent wraps (specT / 1000000) then
         r.violation sec l.idx s!"deadline that travels with the call is later than min(caller's deadline, now+effective timeout) as configured (first WithCallTimeout, else last zrpc.WithTimeout, else RpcClientConf.Timeout) through NewClient / buildDialOptions / buildUnaryInterceptors: op=[{joinSp l.op}] impl=[{impl}]"
       else r
     | _, _, _ => r.mismatch sec l.idx "bad-op" (joinSp l.op)
